@@ -43,6 +43,8 @@ CHECKS = {
          "Decides four clauses only: every 'now' read is a LOCAL clock read; the weekday named in 'Due next <weekday>' is Days.value of an element of the selected days; no days => 'Due today' without reading the clock and every answer is one of three templates with the unmodified start; 'today' is answered exactly under (weekday(now) selected) and (now < start). That the chosen day is the EARLIEST upcoming occurrence is arithmetic over 7x128x3 cases whose decision is execution, outside this family: NOT decided (a defect of exactly that kind was found by reading and fixed, see known_findings.json).", "§4 C13"),
  "C15": ("other", "path-sensitive typestate on the key list of build_command (case split over enum members, symbolic temperature/fan/IR map): order of guarded map lookups per path; normal forms of payload and length; table inverses; AST shape rules for capabilities",
          "Structural clauses decided on all ~8000 guarded paths: key grammar and fallback order (swing dropped first, then fan, ...), membership test and final lookup on the same map, first hit used, clamping decided before the key is built, unsupported modes refused before any lookup, payload = 00000000 ++ hex(Para|HexCode) of the entry under the final key, length = LE16 of the payload size for every size (A5), inverse/total command tables, capability flags read from the set, remote cache keyed by the id. That the entry reached is the most specific PRESENT in a given IR set is a data-dependent search and is NOT decided beyond the loop's shape.", "§4 C15"),
+ "C16": ("other", "path/event analysis of control_breeze_device for all given/omitted combinations of the enum settings: arguments reaching build_command and the status frame traced to requested value or to the same-role field of this call's state reply; guard analysis of the reply checks",
+         "Structural clauses decided on every path (2^4 combinations x target given/omitted x update flag x remote kind x reply outcomes): each setting passed on is the requested value or the same-role field of the state just read, parameter binding of build_command and hole order of the status frame, separate-swing discipline (main command gets OFF, swing frame iff requested and not update-only, swing alone does not trigger the main command), update-only builds no IR code, every intermediate reply is checked before going on and nothing actionable raises. The content of the selected IR code is not decided.", "§4 C16"),
 }
 CHECKS.update(_MORE) if False else None
 NOT_YET = {}
